@@ -42,6 +42,7 @@ type entryCfg struct {
 	HashFork    bool           `json:"hash_fork,omitempty"`   // see symgo.Options.HashFork
 	DelayBound  *int           `json:"delay_bound,omitempty"` // delay-bounded scheduling: deviations from oldest-first at free switches
 	MapOrderAll bool           `json:"map_order_all,omitempty"`
+	SelectFirst bool           `json:"select_first,omitempty"` // see symgo.Options.SelectFirst
 	TimeoutMs   int            `json:"timeout_ms,omitempty"`
 	MaxPaths    int            `json:"max_paths,omitempty"`
 	Bounds      map[string]int `json:"bounds,omitempty"`
@@ -465,6 +466,7 @@ func (c *checker) confirmEngine(prog *symgo.Program, fn *ssa.Function, e entryCf
 		opt.Preemptions = *e.Preemptions
 	}
 	opt.SchedWidth = e.SchedWidth
+	opt.SelectFirst = e.SelectFirst
 	opt.HashFork = e.HashFork || c.pc.HashFork
 	if e.DelayBound != nil {
 		opt.DelayBound = *e.DelayBound
@@ -518,6 +520,9 @@ func (c *checker) effective0(e entryCfg) entryCfg {
 		}
 		if !t.MapOrderAll {
 			t.MapOrderAll = e.MapOrderAll
+		}
+		if !t.SelectFirst {
+			t.SelectFirst = e.SelectFirst
 		}
 		if t.TimeoutMs == 0 {
 			t.TimeoutMs = e.TimeoutMs
@@ -588,6 +593,7 @@ func (c *checker) run(only string) int {
 			opt.Preemptions = *e.Preemptions
 		}
 		opt.SchedWidth = e.SchedWidth
+	opt.SelectFirst = e.SelectFirst
 		opt.HashFork = e.HashFork || c.pc.HashFork
 		if e.DelayBound != nil {
 			opt.DelayBound = *e.DelayBound
